@@ -246,7 +246,8 @@ SUMF = ["summarize::messages", "summarize::rda::extract_rda_status_info", "summa
 for nm, sp, tier in (("c14_pat_rsr", "radial, status, radial: all 256^3 elevation numbers, all non-NaN azimuth angles", "thorough"),
                      ("c14_pat_rvr", "radial, VCP, radial: all 256^3 elevation numbers, all non-NaN azimuth angles", "quick"),
                      ("c14_pat_ssv", "status, status, VCP (two status decodes: peaks above 20 GB)", "probe"),
-                     ("c14_lab_r1r1r2r1", "radials with elevation labels 1,1,2,1; all non-NaN azimuth angles", "quick"),
+                     ("c14_lab_r1r2r1r1", "radials with elevation labels 1,2,1,1 (the LAST group has two members and is a continuation); all non-NaN azimuth angles", "quick"),
+                     ("c14_lab_r1r1r2r1", "radials with elevation labels 1,1,2,1; all non-NaN azimuth angles", "thorough"),
                      ("c14_lab_r1o13o13r1", "radial(1), other(13), other(13), radial(1); all non-NaN azimuth angles", "quick"),
                      ("c14_lab_sr3r3v", "status, radial(3), radial(3), VCP; all non-NaN azimuth angles", "thorough"),
                      ("c14_lab_o7o9r0r0", "other(7), other(9), radial(0), radial(0); all non-NaN azimuth angles", "thorough"),
@@ -299,6 +300,7 @@ for nm, sp in (("c02_two_vol_ref", "VOL then REF, contiguous, pointers in order"
                ("c02_two_elv_rad_gap", "ELV then RAD after a 4-byte gap"), ("c02_two_phi_rho_permuted", "PHI then RHO, gap 2, pointer table permuted"),
                ("c02_two_cfp_zdr", "CFP then ZDR, gap 1")):
     h("C02", "c02::%s" % nm, tier="quick" if nm in ("c02_two_ref_vol_permuted_gaps",) else "thorough", funcs=D31, space="header + 2 blocks (%s): all other bytes symbolic, word size 8|16" % sp, bounds="2 blocks, concrete layout; unwind 10", mfs=256, mem=16, timeout=2400)
+h("C02", "c02::c02_two_vol_elv_declared_size_spans_gap", funcs=D31, space="header + VOL (declared size field = 60, concrete) + 8-byte gap + ELV: all other bytes symbolic", bounds="2 blocks, concrete layout and declared size; unwind 10", mfs=256, mem=16, timeout=2400)
 h("C13", "c13::c13_cut_last_zone_at_730", tier="thorough", funcs=CFM, space="one segment whose azimuth 359 declares two zones (symbolic values); body cut after the first of them (730 of 734 bytes)", bounds="concrete cut point; unwind 362", mfs=1024, mem=30, timeout=9000)
 for k, z in ((5, 0), (6, 0), (7, 0), (13, 2), (16, 2), (20, 1)):
     h("C13", "c13::c13_truncated_at_%d%s" % (k, "_z%d" % z if z and k != 20 else ""), tier="probe", funcs=CFM, space="body cut after %d bytes: segment count symbolic in 1..=255, date/time symbolic, first azimuth declares %d zones with symbolic values" % (k, z), bounds="concrete cut point %d; unwind 10" % k, mem=12, timeout=1200)
